@@ -32,6 +32,19 @@ namespace AState
 @[simp] theorem answer_cfg (s : AState) (sl m) : (s.answer sl m).cfg = s.cfg := by
   unfold answer; split <;> rfl
 
+@[simp] theorem notifyEarly_chan (w) (s : AState) : (s.notifyEarly w).chan = s.chan := by
+  unfold notifyEarly; split <;> rfl
+@[simp] theorem notifyEarly_ops (w) (s : AState) : (s.notifyEarly w).ops = s.ops := by
+  unfold notifyEarly; split <;> rfl
+@[simp] theorem notifyEarly_cfg (w) (s : AState) : (s.notifyEarly w).cfg = s.cfg := by
+  unfold notifyEarly; split <;> rfl
+@[simp] theorem notifyEarly_phase (w) (s : AState) : (s.notifyEarly w).phase = s.phase := by
+  unfold notifyEarly; split <;> rfl
+@[simp] theorem toStopping_chan (s : AState) : s.toStopping.chan = s.chan := rfl
+@[simp] theorem toStopping_ops (s : AState) : s.toStopping.ops = s.ops := rfl
+@[simp] theorem toStopping_cfg (s : AState) : s.toStopping.cfg = s.cfg := rfl
+@[simp] theorem toStopping_phase (s : AState) : s.toStopping.phase = .stopping := rfl
+
 @[simp] theorem fail_chan (s : AState) : s.fail.chan = s.chan.dropRx := rfl
 @[simp] theorem finish_chan (s : AState) : s.finish.chan = s.chan.dropRx := rfl
 @[simp] theorem fail_cfg (s : AState) : s.fail.cfg = s.cfg := rfl
@@ -39,20 +52,11 @@ namespace AState
 @[simp] theorem fail_phase (s : AState) : s.fail.phase = .done false := rfl
 @[simp] theorem finish_phase (s : AState) : s.finish.phase = .done true := rfl
 
-theorem submit_some {s s' : AState} {pl path tok} (h : s.submit pl path tok = some s') :
-    s.chan.rx = true ∧
-    s' = { s with chan := s.chan.enq { pl, tok := (if path = .waiting then tok else .stale) } } := by
-  unfold submit at h
-  split at h
-  · simp at h; exact ⟨by assumption, h.symm⟩
-  · simp at h
-
-theorem submit_none {s : AState} {pl path tok} (h : s.submit pl path tok = none) :
-    s.chan.rx = false := by
-  unfold submit at h
-  split at h
-  · simp at h
-  · simpa using ‹¬ s.chan.rx = true›
+@[simp] theorem push_chan (s : AState) (pl path tok) :
+    (s.push pl path tok).chan = s.chan.enq { pl, tok := (if path = .waiting then tok else .stale) } := rfl
+@[simp] theorem push_ops (s : AState) (pl path tok) : (s.push pl path tok).ops = s.ops := rfl
+@[simp] theorem push_cfg (s : AState) (pl path tok) : (s.push pl path tok).cfg = s.cfg := rfl
+@[simp] theorem push_phase (s : AState) (pl path tok) : (s.push pl path tok).phase = s.phase := rfl
 
 end AState
 end Hannibal
